@@ -1,49 +1,62 @@
 TECHNIQUE = ('bounded symbolic execution of LLVM IR lowered to C: CBMC/SAT (cadical); real for_each_n/for_each '
-             'instantiated over a harness task set that plays scheduler at task granularity')
+             'instantiated over a harness task set that plays scheduler at task granularity; configuration space '
+             'explored as a tree of literal scenarios under a symbolic selector')
 ASSUMPTIONS = [
     'the task set passed as TaskSetT is a harness mock with the surface for_each_n uses (pool(), numPoolThreads(), '
-    'scheduleBulk(count, gen), wait()); like the real sets it evaluates gen(i) for increasing i inside scheduleBulk and '
-    'either runs the closure inline or queues it; queued closures run in any order, at any mock entry point (pool of >= 1 '
-    'thread) or inside wait()',
+    'scheduleBulk(count, gen), wait()); like the real sets it evaluates gen(i) once for every i in [0,count) inside '
+    'scheduleBulk and either runs the closure inline or queues it; queued closures run in any order, at any later mock '
+    'entry point (pool of >= 1 thread) or inside wait()',
     'task-granularity interleaving: a closure runs to completion once started (thorough tier: one other stored closure may '
     'run between two element applications); data races inside a closure are not explored',
-    'the caller is not itself inside a parallel-for task (PerPoolPerThreadInfo recursion level 0 on entry)',
 ]
-OUTSIDE = ('n > 6 (quick) / 7 (thorough); pools of more than 2 (quick) / 3 (thorough) threads; the overloads without a task '
+OUTSIDE = ('n > 6 (quick) / 8 (thorough); pools of more than 2 (quick) / 3 (thorough) threads; maxThreads other than '
+           '{0,1,2,INT32_MAX,UINT32_MAX} except in the *_anymt instances (any uint32_t, n <= 4); the overloads without a task '
            'set argument (they construct a real TaskSet on the global pool and forward to the checked overload with '
            'wait=true); functors that throw; nested for_each calls from inside the functor')
 
 _CHECKS = ['--div-by-zero-check', '--pointer-check', '--bounds-check']
+_ITN = {0: 'pointer (random-access) iterators', 1: 'harness forward iterator', 2: 'harness bidirectional iterator',
+        3: 'harness random-access iterator class'}
 
 
-def _inst(name, it, entry, rv, region, what):
-    d = {'VF_ITER': it, 'VF_ENTRY': entry, 'VF_RVALUE': rv, 'VF_REGION': region}
-    q = dict(d, VF_MAXN=6, VF_NPOOL=2, VF_MAXTASKS=2, VF_DEEP=0)
-    t = dict(d, VF_MAXN=7, VF_NPOOL=3, VF_MAXTASKS=3, VF_DEEP=1)
-    # SmallVector<Iter,64>'s heap-growth loops: never entered for <= 64 boundaries; bound 1 + unwinding assertion
-    us = {}
-    itn = {1: '5FwdIt', 2: '6BidiIt'}.get(it)
-    if itn:
-        for fn in ('_ZN8dispenso11SmallVectorI%sLm64EE14ensureCapacityEm', '_ZN8dispenso11SmallVectorI%sLm64EE12emplace_backIJRKS1_EEERS1_DpOT_'):
-            for k in range(4):
-                us['%s.%d' % (fn % itn, k)] = 1
+def _inst(name, it, entry, rv=0, stateful=0, tiers=('quick', 'thorough'), q=None, t=None, what='', unwind=9, tunwind=11):
+    d = {'VF_ITER': it, 'VF_ENTRY': entry, 'VF_RVALUE': rv, 'VF_STATEFUL': stateful}
+    qd = dict(d, VF_MAXN=6, VF_NPOOL=2, VF_MAXTASKS=3, VF_DEEP=0)
+    qd.update(q or {})
+    td = dict(d, VF_MAXN=8, VF_NPOOL=3, VF_MAXTASKS=4, VF_DEEP=0)
+    td.update(t or q or {})
     return {
-        'name': name, 'src': 'foreach.cpp', 'engine': 'cbmc', 'defs': q,
+        'name': name, 'src': 'foreach.cpp', 'engine': 'cbmc', 'defs': qd, 'tiers': list(tiers),
         'repo_sources': ['dispenso/detail/per_thread_info.cpp'],
-        'unwind': 9, 'unwindset': us, 'timeout': 900, 'checks': _CHECKS, 'leak_check': True, 'object_bits': 12,
-        'rt_defs': {'VF_NLOG': 128},
-        'bounds': what + '; n 0..6 of 7 elements (thorough: 0..7 of 8), pool size 0..2 (thorough 0..3), maxThreads any '
-                  'uint32_t, wait true/false; each task inline or stored, stored tasks run in any order at the start of later '
-                  'schedule() calls (pool >= 1 thread) or in wait() (task-granularity interleaving; thorough: also between '
-                  'two element applications of the caller chunk)',
-        'thorough': {'defs': t, 'unwind': 10, 'unwindset': us, 'timeout': 1700},
+        'unwind': unwind, 'timeout': 400, 'checks': _CHECKS, 'object_bits': 13, 'must_reach': 'all',
+        'bounds': '%s, %s, functor passed as %s%s; %s' % (
+            'for_each(first,last)' if entry else 'for_each_n', _ITN[it], 'rvalue' if rv else 'lvalue',
+            ' (stateful: pointer capture)' if stateful else '', what),
+        'thorough': {'defs': td, 'unwind': tunwind, 'timeout': 1700},
     }
 
 
+_FULL = ('every combination of n 0..6 of 8 elements (thorough 0..8 of 10), pool size 0..2 (thorough 0..3), maxThreads in '
+         '{0,1,2,INT32_MAX,UINT32_MAX}, wait true/false, caller outside / already inside a parallel-for chunk of the same pool; '
+         'each chunk task inline or stored, stored tasks run in any order at the start of later schedule() calls (pool >= 1 '
+         'thread) or in wait() (task-granularity interleaving)')
+_ZP = ('only zero-thread pool, wait=false, n 1..6 (thorough 1..8), maxThreads in {1,2,INT32_MAX,UINT32_MAX}; the one chunk inline '
+       'or stored until wait()')
+_ZPD = {'VF_MTNZ': 1, 'VF_MINN': 1, 'VF_NPOOL': 0, 'VF_WAITSEL': 0, 'VF_RECUR': 0}
+_ANY = ('every combination of n 0..4, pool size 0..2 (thorough 0..3), wait true/false with maxThreads any uint32_t '
+        '(symbolic); scheduling as above')
+_ANYD = {'VF_ANYMT': 1, 'VF_MAXN': 4, 'VF_RECUR': 0}
+
 INSTANCES = [
-    _inst('ptr_n', 0, 0, 0, 0, 'for_each_n, random-access (pointer) iterators, functor lvalue'),
-    _inst('fwd_range', 1, 1, 1, 0, 'for_each(first,last), harness forward iterator over a linked list, functor rvalue'),
-    _inst('bidi_n', 2, 0, 1, 0, 'for_each_n, harness bidirectional iterator over a doubly linked list, functor rvalue'),
-    _inst('zero_pool_nowait_ptr', 0, 0, 0, 1, 'for_each_n, pointer iterators, only: zero-thread pool, wait=false, n>0, maxThreads>0'),
-    _inst('zero_pool_nowait_fwd', 1, 0, 0, 1, 'for_each_n, forward iterators, only: zero-thread pool, wait=false, n>0, maxThreads>0'),
+    _inst('ptr_n', 0, 0, rv=0, stateful=1, what=_FULL),
+    _inst('fwd_range', 1, 1, rv=1, what=_FULL),
+    _inst('bidi_n', 2, 0, rv=1, what=_FULL),
+    _inst('fwd_n', 1, 0, rv=0, what=_FULL, tiers=('thorough',)),
+    _inst('bidi_range', 2, 1, rv=0, what=_FULL, tiers=('thorough',)),
+    _inst('ptr_range', 0, 1, rv=1, what=_FULL, tiers=('thorough',)),
+    _inst('rand_n', 3, 0, rv=1, what=_FULL, tiers=('thorough',)),
+    _inst('zero_pool_nowait_ptr', 0, 0, q=_ZPD, t=dict(_ZPD, VF_MAXN=8), what=_ZP),
+    _inst('zero_pool_nowait_fwd', 1, 0, q=_ZPD, t=dict(_ZPD, VF_MAXN=8), what=_ZP),
+    _inst('ptr_anymt', 0, 0, q=_ANYD, t=dict(_ANYD, VF_NPOOL=3), what=_ANY),
+    _inst('fwd_anymt', 1, 0, q=_ANYD, t=dict(_ANYD, VF_NPOOL=3), what=_ANY),
 ]
